@@ -9,15 +9,17 @@ NOTE = ('Trusted: CPython 3.12, z3 (sampled queries re-decided by z3 4.8.12 and 
         'of symex/crypto.py. Nothing is claimed outside the bounds listed in the evidence file.')
 CLAIMED = {
     'C01': ('5-C01', 'For every Interest/Data inside the stated bounds (all 64-bit field values, all name/payload byte values, '
-            'all optional-field shapes, every enumerated payload length around the 253/65536 boundaries, every real ECDSA '
-            'signature length) the solver shows that the emitted wire is one exact well-formed TLV and that parsing returns '
+            'all optional-field shapes, every payload LENGTH in [0, 70000] as a solver variable on elastic buffers - thorough '
+            '[0, 2^20] - plus enumerated lengths around 253/65536 with real payload octets, every real ECDSA signature length) '
+            'the solver shows that the emitted wire is one exact well-formed TLV and that parsing returns '
             'the inputs; bounded, not a proof.'),
     'C07': ('5-C07', 'Differential check against an independent strict decoder: all buffers up to the stated length are '
             'decided by the solver path by path, and every TL number of valid packets is made a solver variable in every '
             'encoding form; accepts => reference accepts, and extracted fields equal. Bounded.'),
     'C08': ('5-C08', 'For every shipped and generated model class and every value plan the solver shows the encoder output equals '
             'an independent reference encoding for all values of the symbolic leaves, and that decoding returns them; decode-side '
-            'edits are decided differentially. Model classes are enumerated programs; bounded.'),
+            'edits are decided differentially; one byte-string leaf at a time has a solver-chosen length up to 70000 (2^20). '
+            'Model classes are enumerated programs; bounded.'),
     'C09': ('5-C09', 'Byte-level name identities, prefix test and canonical ordering are decided as formula equivalences over all '
             'component types/values in the bound; URI round trips are decided by solver-driven enumeration of every byte that '
             'reaches string formatting. Bounded.'),
@@ -54,8 +56,8 @@ CLAIMED = {
     'C14': ('5-C14', 'Certificate hierarchies built by the real code on the ideal signature model; one deviation per run at a link '
             'chosen by the engine (signature byte symbolic in position and value); verdict compared with the chain predicate; two '
             'default-constructed validator instances in every order. The symbolic axis is mostly a finite fault vector (stated). Bounded.'),
-    'C16': ('5-C16', 'Certificates produced by the real functions with symbolic signature length, key bytes/lengths crossing the 253 '
-            'boundary, key-name bytes and clock; read by the reference reader, verified by the real verify_* code on ideal '
+    'C16': ('5-C16', 'Certificates produced by the real functions with symbolic signature length, key bytes, a public key of solver-chosen '
+            'LENGTH (0..70000, thorough 2^20), key-name bytes and clock; read by the reference reader, verified by the real verify_* code on ideal '
             'primitives and re-parsed. Date formatting is C code: concrete instants at boundaries (stated). Bounded.'),
     'C20': ('5-C20', 'Presence of every environment variable, existence of every candidate file / store location and presence of each '
             'file key are solver Booleans; result compared with the precedence decision table; transport URIs over all supported '
